@@ -36,12 +36,29 @@ fn run_worker(mode: &str, seed: u64, first: u64, count: u64) -> Vec<Value> {
         }
         tail
     });
+    // watchdog: a worker that stops making progress is killed; its missing rounds are inconclusive
+    let pid = child.id();
+    let done = std::sync::Arc::new(std::sync::atomic::AtomicBool::new(false));
+    {
+        let done = done.clone();
+        let limit = 60 + 20 * count;
+        std::thread::spawn(move || {
+            for _ in 0..limit {
+                std::thread::sleep(std::time::Duration::from_secs(1));
+                if done.load(std::sync::atomic::Ordering::SeqCst) {
+                    return;
+                }
+            }
+            let _ = Command::new("kill").arg("-9").arg(pid.to_string()).status();
+        });
+    }
     let mut out = vec![];
     for l in BufReader::new(stdout).lines().map_while(Result::ok) {
         if let Ok(v) = serde_json::from_str::<Value>(&l) {
             out.push(v);
         }
     }
+    done.store(true, std::sync::atomic::Ordering::SeqCst);
     let status = child.wait();
     let tail = errt.join().unwrap_or_default();
     if out.len() < count as usize {
